@@ -1062,6 +1062,303 @@ def check_known_mod(case):
 
 
 # =========================================================================================
+# point-wise fall-back of ScalarField.from_expression (after missed seed C11-3): expressions that
+# cannot be evaluated with array arguments (python `if` inside a user function, Piecewise, sign) are
+# evaluated cell by cell; the value of every cell must be the value of the written formula, whatever
+# python type the formula returns at the first cell (an integer literal/branch must not decide the
+# type of the other cells)
+# =========================================================================================
+# name, text template, value, error scale (F: value of the branching term, E: its error scale, X:
+# coordinate of the last axis)
+PW_WRAPS = {
+    "F": ("{F}", lambda F, X: F, lambda E, F, X: E),
+    "2*F": ("2*{F}", lambda F, X: 2 * F, lambda E, F, X: 2 * E),
+    "F + 1": ("{F} + 1", lambda F, X: F + 1, lambda E, F, X: E + 1),
+    "3*F - 2": ("3*{F} - 2", lambda F, X: 3 * F - 2, lambda E, F, X: 3 * E + 2),
+    "-F": ("-{F}", lambda F, X: -F, lambda E, F, X: E),
+    "F**2": ("{F}**2", lambda F, X: F ** 2, lambda E, F, X: (np.abs(F) + E) ** 2),
+    "F + X": ("{F} + {X}", lambda F, X: F + X, lambda E, F, X: E + np.abs(X)),
+    "X*F": ("{X}*{F}", lambda F, X: X * F, lambda E, F, X: np.abs(X) * E),
+    "0.5*F": ("0.5*{F}", lambda F, X: 0.5 * F, lambda E, F, X: E),
+    "F/4": ("{F}/4", lambda F, X: F / 4, lambda E, F, X: E),
+}
+PW_WEIGHTS = [1, -1, 2, 0.5]
+
+
+@st.composite
+def pointwise_cases(draw):
+    spec = draw(GG.grids(min_cells=2, max_cells=5, max_total=40, len_lo=1e-2, len_hi=50.0, offset_mag=50.0))
+    nax = len(spec["shape"])
+    return {
+        "grid": spec,
+        "kind": draw(st.sampled_from(["userfunc", "piecewise", "userfunc", "piecewise", "userfunc", "sign"])),
+        "nargs": draw(st.sampled_from([1, 2])) if nax >= 2 else 1,
+        "first_axis": draw(st.integers(0, nax - 1)),
+        "weights": [draw(st.sampled_from(PW_WEIGHTS)), draw(st.sampled_from(PW_WEIGHTS))],
+        "combined": draw(st.booleans()),  # user function of the combined argument / of the coordinates
+        "thr_pick": draw(st.integers(0, 40)),
+        "first_int": draw(st.sampled_from([True, True, False])),
+        "ival": draw(st.sampled_from([0, 1, -2, 3, 0])),
+        "num": draw(st.sampled_from([1, 3, -2, 7])), "den": draw(st.sampled_from([4, 3, 8, 7])),
+        "b": draw(st.sampled_from([0.0, 0.125, -0.3, 1.7])),
+        "pw_order": draw(st.booleans()),
+        "wrap": draw(st.sampled_from(list(PW_WRAPS))),
+    }
+
+
+def check_pointwise(case):
+    spec = case["grid"]
+    grid = GG.build_grid(spec)
+    full = tuple(int(n) for n in spec["shape"])
+    axes = AXES[spec["cls"]][:len(full)]
+    coords, _ = grid_coordinates(spec)
+    coords = [np.array(np.broadcast_to(c, full), dtype=float) for c in coords]
+    kind, wrap = case["kind"], case["wrap"]
+    # argument s = w0*c_i (+ w1*c_j): the weights are powers of two, so s is computed exactly alike
+    # by every route
+    i0 = int(case["first_axis"]) % len(full)
+    used = [i0] + ([(i0 + 1) % len(full)] if int(case["nargs"]) == 2 else [])
+    ws = [case["weights"][k] for k in range(len(used))]
+    s = sum(w * coords[i] for w, i in zip(ws, used))
+    s_text = " + ".join(f"({w!r})*{axes[i]}" for w, i in zip(ws, used))
+    # threshold: middle of a gap between the sorted values of s (far from every cell compared with
+    # round-off), or below all of them
+    u = np.unique(s)
+    scale = float(np.max(np.abs(u))) + 1.0
+    cands = [float(0.5 * (lo + hi)) for lo, hi in zip(u[:-1], u[1:]) if hi - lo > 1e-7 * scale]
+    cands.append(float(u[0]) - 1.0)
+    thr = cands[int(case["thr_pick"]) % len(cands)]
+    first = tuple([0] * len(full))
+    below0 = bool(s[first] < thr)
+    below = below0 if case["first_int"] else not below0  # integer branch: s < thr (or s >= thr)
+    ival, num, den, b = int(case["ival"]), int(case["num"]), int(case["den"]), float(case["b"])
+
+    def core(sv):
+        if below:
+            if sv < thr:
+                return ival
+        elif sv >= thr:
+            return ival
+        return num * sv / den + b
+
+    user_funcs = None
+    if kind == "userfunc":
+        if case["combined"]:
+            user_funcs = {"f": core}
+            f_text = f"f({s_text})"
+        else:
+            def f_coords(*cs):
+                return core(sum(w * c for w, c in zip(ws, cs)))
+
+            user_funcs = {"f": f_coords}
+            f_text = "f(" + ", ".join(axes[i] for i in used) + ")"
+    elif kind == "piecewise":
+        fl_text = f"{num}*({s_text})/{den} + {b!r}"
+        if below:
+            f_text = f"Piecewise(({ival}, {s_text} < {thr!r}), ({fl_text}, True))"
+        elif case["pw_order"]:
+            f_text = f"Piecewise(({ival}, {s_text} >= {thr!r}), ({fl_text}, True))"
+        else:
+            f_text = f"Piecewise(({fl_text}, {s_text} < {thr!r}), ({ival}, True))"
+    elif kind == "sign":
+        f_text = f"sign({s_text} - {thr!r})"
+    else:
+        raise HarnessError(kind)
+    template, wfun, wscale = PW_WRAPS[wrap]
+    x_last = coords[-1]
+    text = template.format(F=f_text, X=axes[len(full) - 1])
+
+    # independent evaluation, one cell after the other, in float64
+    F = np.empty(full, dtype=np.float64)
+    is_int = np.zeros(full, dtype=bool)
+    for idx in np.ndindex(*full):
+        sv = float(s[idx])
+        if kind == "sign":
+            F[idx] = -1.0 if sv < thr else 1.0
+        else:
+            is_int[idx] = (sv < thr) if below else (sv >= thr)
+            F[idx] = float(ival) if is_int[idx] else num * sv / den + b
+    e_s = sum(abs(w) * np.abs(coords[i]) for w, i in zip(ws, used))
+    E = np.ones(full) if kind == "sign" else abs(num / den) * e_s + abs(b) + abs(ival)
+    want = wfun(F, x_last)
+    tol = TOLK * G.EPS * (wscale(E, F, x_last) + np.abs(want)) + 1e-300
+
+    first_cls = "sign" if kind == "sign" else ("int" if is_int[first] else "float")
+    key = f"pointwise:{kind}:first-cell-{first_cls}"
+    try:
+        with time_limit(SIMPLIFY_LIMIT):
+            fld = run_generated(lambda: accept(
+                lambda: pde.ScalarField.from_expression(grid, text, user_funcs=user_funcs), text,
+                "from_expression"), text, "from_expression(point-wise)")
+    except _Timeout:
+        return {"nt": False, "labels": ["simplify-timeout"]}
+    data = fld.data
+    if data.shape != full:
+        raise Violation(f"field data shape {data.shape}, expected {full} for `{text}`", key=key + ":shape")
+    if data.dtype != np.float64:
+        raise Violation(f"from_expression(`{text}`) gave a field of dtype {data.dtype} for a real-valued "
+                        "formula with non-integer values", key=key + ":dtype")
+    dev = np.abs(data - want)
+    if not np.all(dev <= tol):
+        i = np.unravel_index(int(np.argmax(np.where(dev <= tol, 0, dev / tol))), full)
+        what = f"f = {{{'s < ' if below else 's >= '}{thr!r}: {ival}, else: {num}*s/{den} + {b!r}}}, s = {s_text}; " \
+            if kind == "userfunc" else ""
+        raise Violation(
+            f"from_expression(`{text}`) on {GG.grid_label(spec)} {spec}: {what}cell {tuple(int(j) for j in i)} "
+            f"(coordinates {[float(c[i]) for c in coords]}) has value {data[i]!r}, the formula gives {want[i]!r}; "
+            f"value of the first cell {data[first]!r} ({first_cls} branch); {int((dev > tol).sum())} of "
+            f"{data.size} cells differ", key=key)
+    labs = [f"kind:{kind}", f"wrap:{wrap}", f"first-cell:{first_cls}", GG.grid_label(spec),
+            f"nargs:{len(used)}"]
+    mixed = kind != "sign" and is_int.any() and not is_int.all()
+    labs.append("both-branches" if mixed or (kind == "sign" and len(np.unique(F)) > 1) else "single-branch")
+    fractional = bool(np.any(want != np.round(want)))
+    if kind == "userfunc":
+        labs.append("f(combined)" if case["combined"] else "f(coordinates)")
+    if mixed and is_int[first] and fractional and wrap in ("F", "2*F", "F + 1", "3*F - 2", "-F", "F**2"):
+        labs.append("first-cell-python-int+fractional-cells")
+    return {"nt": bool(mixed and fractional), "labels": labs}
+
+
+# =========================================================================================
+# repeated get_function requests on ONE expression object with different per-request user
+# functions (after missed seed C11-4): every returned function evaluates the formula with the
+# user functions of ITS request, also after later requests
+# =========================================================================================
+def _uf_lin(x):
+    return 0.5 * x - 1.0
+
+
+def _uf_g(x):
+    return 1.0 / (1.0 + x * x)
+
+
+REQ_FUNCS = {"sin": np.sin, "cos": np.cos, "tanh": np.tanh, "sq": lambda x: x ** 2, "lin": _uf_lin}
+# text, variables, needs g at construction, value(F, g, x, y) -> list of components (flat)
+GF_SCALAR = {
+    "2*f(x) + x": (["x"], False, lambda F, g, x, y: 2 * F(x) + x),
+    "f(x)*y - f(y)": (["x", "y"], False, lambda F, g, x, y: F(x) * y - F(y)),
+    "f(f(x)) + y": (["x", "y"], False, lambda F, g, x, y: F(F(x)) + y),
+    "f(x + y)/(2 + f(x)**2)": (["x", "y"], False, lambda F, g, x, y: F(x + y) / (2 + F(x) ** 2)),
+    "f(2*x - y)": (["x", "y"], False, lambda F, g, x, y: F(2 * x - y)),
+    "g(x)*f(y) - x": (["x", "y"], True, lambda F, g, x, y: g(x) * F(y) - x),
+    "f(x)**2 - f(y)*g(x)": (["x", "y"], True, lambda F, g, x, y: F(x) ** 2 - F(y) * g(x)),
+    "g(f(x)) + f(g(y))": (["x", "y"], True, lambda F, g, x, y: g(F(x)) + F(g(y))),
+}
+GF_TENSOR = {
+    "[f(x), x*f(y)]": (["x", "y"], False, [2], lambda F, g, x, y: [F(x), x * F(y)]),
+    "[[f(x), y], [f(y) - x, f(x)*f(y)]]": (["x", "y"], False, [2, 2],
+                                            lambda F, g, x, y: [F(x), y, F(y) - x, F(x) * F(y)]),
+    "[f(x) + g(y), y*f(x), f(f(y))]": (["x", "y"], True, [3],
+                                       lambda F, g, x, y: [F(x) + g(y), y * F(x), F(F(y))]),
+}
+
+
+@st.composite
+def get_function_cases(draw, backend="numpy"):
+    cls = draw(st.sampled_from(["scalar", "scalar", "tensor"]))
+    form = draw(st.sampled_from(list(GF_SCALAR if cls == "scalar" else GF_TENSOR)))
+    names = draw(st.permutations(sorted(REQ_FUNCS)))
+    a, b, c = names[:3]
+    sa = draw(st.sampled_from([False, False, True]))
+    # first function, a different one, the first one again; then possibly more requests
+    reqs = [[a, sa], [b, sa], [a, sa]]
+    for _ in range(draw(st.sampled_from([0, 0, 1, 2])) if backend == "numpy" else 0):
+        reqs.append([draw(st.sampled_from([a, b, c])), draw(st.sampled_from([sa, sa, not sa]))])
+    return {"cls": cls, "form": form, "requests": reqs, "backend": backend,
+            "style": draw(st.sampled_from(["positional", "keyword"])),
+            "none_first": draw(st.sampled_from([False, False, False, True])),
+            "seed": draw(st.integers(0, 2**31)), "n": draw(st.sampled_from([3, 1, 4, 2])),
+            "layout": draw(st.sampled_from(["array", "array", "scalar"]))}
+
+
+def check_get_function_twice(case):
+    backend = case["backend"]
+    scalar = case["cls"] == "scalar"
+    form = case["form"]
+    if scalar:
+        vs, needs_g, vfun = GF_SCALAR[form]
+        tshape = ()
+    else:
+        vs, needs_g, tshape, vfun = GF_TENSOR[form]
+        tshape = tuple(tshape)
+    shape = () if case["layout"] == "scalar" else (int(case["n"]),)
+    x = G.values_in_range(int(case["seed"]), shape, 0.2, 1.5)
+    y = G.values_in_range(int(case["seed"]) + 7, shape, 0.2, 1.5)
+    x, y = (float(x), float(y)) if shape == () else (x, y)
+    kw = {"user_funcs": {"g": _uf_g}} if needs_g else {}
+    cls = ScalarExpression if scalar else TensorExpression
+    with time_limit(SIMPLIFY_LIMIT):
+        expr = accept(lambda: cls(form, signature=vs, **kw), form, cls.__name__)
+    tolk = TOLK if backend == "numpy" else TOLK_JIT
+    key = f"get_function-repeated:{backend}:{case['cls']}"
+
+    def evaluate_fn(fn, sa, what):
+        args = [x, y][:len(vs)]
+        if sa:
+            stacked = np.array(args, dtype=float)
+            got = run_generated(lambda: fn(stacked), form, what)
+        else:
+            got = run_generated(lambda: fn(*args), form, what)
+        if backend == "numba" and not scalar:
+            got = np.array(got)  # (nested) lists
+        got = np.asarray(got)
+        if got.shape != tshape + shape:
+            raise Violation(f"{what}: `{form}` returned shape {got.shape}, expected {tshape + shape}",
+                            key=key + ":shape")
+        return got.reshape((-1,) + shape) if tshape else got[None]
+
+    def judge(got, fname, what, history):
+        F = REQ_FUNCS[fname]
+        want = vfun(F, _uf_g, x, y)
+        want = np.array([np.broadcast_to(np.asarray(w, dtype=float), shape) for w in (want if tshape else [want])])
+        # all sub-terms are bounded by 10 on the argument domain [0.2, 1.5]
+        tol = tolk * G.EPS * 10.0
+        dev = np.abs(got - want)
+        if not np.all(dev <= tol):
+            # which user function was used instead?
+            used = [n for n in sorted(REQ_FUNCS) if np.all(np.abs(got - np.array(
+                [np.broadcast_to(np.asarray(w, dtype=float), shape)
+                 for w in (vfun(REQ_FUNCS[n], _uf_g, x, y) if tshape else [vfun(REQ_FUNCS[n], _uf_g, x, y)])]))
+                <= tol)]
+            raise Violation(
+                f"{what}: the function for `{form}` requested with user_funcs={{'f': {fname}}} returns "
+                f"{got.tolist()!r} at x={np.asarray(x).tolist()}, y={np.asarray(y).tolist()}; the formula with "
+                f"f={fname} gives {want.tolist()!r}" + (f" (this is the formula with f={used[0]})" if used else "")
+                + f"; requests on this expression object so far: {history}", key=key)
+
+    def request(fname, sa):
+        ufs = None if fname is None else {"f": REQ_FUNCS[fname]}
+        if case["style"] == "positional":
+            return expr.get_function(backend, single_arg=sa, user_funcs=ufs)
+        return expr.get_function(backend=backend, user_funcs=ufs, single_arg=sa)
+
+    history = []
+    if case["none_first"]:
+        # a request without user functions (the function cannot be evaluated since f is undefined)
+        request(None, case["requests"][0][1])
+        history.append(["<no user_funcs>", case["requests"][0][1]])
+    fns = []
+    for k, (fname, sa) in enumerate(case["requests"]):
+        fn = request(fname, bool(sa))
+        history.append([fname, bool(sa)])
+        fns.append(fn)
+        judge(evaluate_fn(fn, sa, f"{backend}/request {k}"), fname, f"request {k}", history)
+    # the functions handed out earlier keep their meaning
+    for k, ((fname, sa), fn) in enumerate(zip(case["requests"], fns)):
+        judge(evaluate_fn(fn, sa, f"{backend}/request {k} (again)"), fname,
+              f"request {k}, evaluated after all requests", history)
+    labs = [f"cls:{case['cls']}", f"form:{form}", f"requests:{len(case['requests'])}", f"layout:{case['layout']}",
+            f"style:{case['style']}", "single_arg" if case["requests"][0][1] else "separate-args",
+            "g-at-construction" if needs_g else "f-only"]
+    if case["none_first"]:
+        labs.append("first-request-without-user_funcs")
+    if len({bool(r[1]) for r in case["requests"]}) > 1:
+        labs.append("mixed-single_arg")
+    return {"nt": True, "key": [form, case["requests"], case["layout"], case["style"]], "labels": labs}
+
+
+# =========================================================================================
 NT_VALUE = ("non-trivial = AST depth >= 3 with a non-commutative operator nested in another and >= 1 "
             "judged point")
 
@@ -1113,6 +1410,20 @@ SUBCHECKS = [
     SubCheck("evaluate_fields", strategy=evaluate_cases, check=check_evaluate, mode="pure",
              budget={"quick": 200, "thorough": 5000}, shards={"quick": 1, "thorough": 2},
              rule="non-trivial = depth >= 2 depending on a field"),
+    SubCheck("from_expression_pointwise_fallback", strategy=pointwise_cases, check=check_pointwise, mode="pure",
+             budget={"quick": 240, "thorough": 6000}, shards={"quick": 1, "thorough": 2},
+             rule="expressions that only evaluate cell by cell (user function with a python `if` returning an "
+                  "int in one branch, Piecewise, sign) against a cell-by-cell float64 evaluation; non-trivial = "
+                  "both branches occur on the grid and some cell has a non-integer value"),
+    SubCheck("get_function_twice_user_funcs", strategy=get_function_cases, check=check_get_function_twice,
+             mode="pure", budget={"quick": 200, "thorough": 4000}, shards={"quick": 1, "thorough": 2},
+             rule="one expression object, requests get_function(user_funcs={f: A}), ({f: B}), ({f: A}) [+ more]: "
+                  "every returned function evaluates the formula with the user function of its request, also "
+                  "after the later requests; every case non-trivial"),
+    SubCheck("get_function_twice_user_funcs_numba", strategy=lambda: get_function_cases(backend="numba"),
+             check=check_get_function_twice, mode="jit", budget={"quick": 10, "thorough": 150},
+             shards={"quick": 1, "thorough": 2},
+             rule="as get_function_twice_user_funcs with the numba backend (compiled)"),
 ]
 
 for _s in SUBCHECKS:
